@@ -152,8 +152,12 @@ def replay_file(path, times=3, env=None, timeout_ms=None, prop=None, sweep=1):
     m = re.search(r"REPLAY .* runs=(\d+) fails=(\d+) inconclusive=(\d+) key=(\S*) msg=(.*)", p.stdout)
     if not m:
         return dict(runs=0, fails=0, inconclusive=0, key="", msg="replay driver error: " + p.stdout[-300:])
-    return dict(runs=int(m.group(1)), fails=int(m.group(2)), inconclusive=int(m.group(3)),
-                key=m.group(4), msg=m.group(5))
+    r = dict(runs=int(m.group(1)), fails=int(m.group(2)), inconclusive=int(m.group(3)),
+             key=m.group(4), msg=m.group(5))
+    if "crashed with signal" in r["msg"]:
+        # an in-process harness died on the first run: the remaining runs could not happen
+        r["fails"] = max(r["fails"], 2)
+    return r
 
 
 def run_rc_unit(res, unit, findings, tier, seed, tmp):
